@@ -288,6 +288,8 @@ def run_shard(exe, job, prop, tier, seed, shard, odir, rdir):
     env = dict(os.environ)
     env.update(san_env(job.config, out))
     env.update(job.env)
+    if 'ASAN_OPTIONS_EXTRA' in job.env and 'ASAN_OPTIONS' in env:
+        env['ASAN_OPTIONS'] = env['ASAN_OPTIONS'].replace('detect_leaks=1', job.env['ASAN_OPTIONS_EXTRA'])
     timeout = job.timeout or (900 if tier == 'quick' else 7200)
     start_case, restarts, notes = 0, 0, []
     while True:
@@ -303,7 +305,7 @@ def run_shard(exe, job, prop, tier, seed, shard, odir, rdir):
             break
         res = open(out + '.res', errors='replace').read() if os.path.exists(out + '.res') else ''
         m = re.findall(r'^(?:HANG|CRASH)\t(\d+)$', res, re.M)
-        if rc in (41, 42) and m and restarts < 12:
+        if rc in (41, 42) and m and restarts < 400:
             start_case = int(m[-1]) + 1
             restarts += 1
             continue
@@ -487,8 +489,12 @@ def verdict(prop, spec, res, tier, seed, t0, evpath, rdir):
         json.dump(ev, f, indent=1, sort_keys=False)
     os.replace(tmp, evpath)
 
+    grouped = {}
     for (k, (fkey, ftext), n, replay) in known_hits:
-        print('KNOWN-FINDING: property=%s key=%s (%d occurrence(s)) %s' % (prop, fkey, n, ftext))
+        g = grouped.setdefault(fkey, [ftext, 0, set()])
+        g[1] += n; g[2].add(k)
+    for fkey, (ftext, n, ks) in sorted(grouped.items()):
+        print('KNOWN-FINDING: property=%s key=%s (%d occurrence(s), %d violation key(s)) %s' % (prop, fkey, n, len(ks), ftext))
     for (k, replay, msg, n) in new:
         print('VIOLATION property=%s replay=%s' % (prop, replay))
         print('  key=%s occurrences=%d %s' % (k, n, msg[:400]))
